@@ -42,7 +42,8 @@ pub fn json_strs(v: &[String]) -> String {
 pub fn json_str(x: &str) -> String {
     let v = vec![x.to_string()];
     let s = json_strs(&v);
-    s[1..s.len() - 1].to_string()
+    // strip the brackets and the quotes: the escaped content only
+    s[2..s.len() - 2].to_string()
 }
 
 // ---------------------------------------------------------------------------------------------
@@ -143,7 +144,7 @@ impl Hasher for Rec {
         self.0.extend_from_slice(bytes);
     }
 }
-pub fn feed_of<T: Hash>(x: &T) -> Vec<u8> {
+pub fn feed_of<T: Hash + ?Sized>(x: &T) -> Vec<u8> {
     let mut r = Rec::default();
     x.hash(&mut r);
     r.0
@@ -460,6 +461,11 @@ pub struct Holder;
 impl Holder {
     pub const SRC3: Src = Src(3);
 }
+impl Pr {
+    pub fn same(self) -> Pr {
+        self
+    }
+}
 pub fn mk(n: u8) -> Pr {
     Pr(format!("call:{}", n))
 }
@@ -477,4 +483,16 @@ impl Clone for CFC {
         self.0 = source.0;
         self.1 = source.1;
     }
+}
+
+/// one field of a Debug observation: its own `{:?}` text and `{:#?}` lines
+pub fn dbg_field<T: std::fmt::Debug>(name: &str, dbg: &str, x: &T) -> String {
+    let alt: Vec<String> = format!("{:#?}", x).split('\n').map(|s| s.to_string()).collect();
+    format!(
+        "{{\"name\":\"{}\",\"dbg\":\"{}\",\"leaf\":\"{}\",\"alt\":{}}}",
+        json_str(name),
+        dbg,
+        json_str(&format!("{:?}", x)),
+        json_strs(&alt)
+    )
 }
